@@ -333,9 +333,11 @@ def draw_knobs(W, **ranges):
     return out
 
 
-def draw_sched(W, allow_trace=True, walk_p=0.6, means=(3, 10, 30, 100, 300)):
-    """scheduler arm for a run: (sched dict, trace mode)"""
-    arm = W.weighted([1.0 - walk_p, walk_p])
+def draw_sched(W, allow_trace=True, walk_p=0.6, means=(3, 10, 30, 100, 300), pct_p=0.2):
+    """scheduler arm for a run: (sched dict, trace mode).  Arms: run-to-block, random walk (gap
+    encoded), PCT (random priorities + d priority-drop points), each optionally with source-line
+    pre-emption and the targeted-delay hook."""
+    arm = W.weighted([max(0.0, 1.0 - walk_p - pct_p), walk_p, pct_p])
     trace = "none"
     sched = {"kind": "rtb"}
     if arm == 1:
@@ -343,6 +345,14 @@ def draw_sched(W, allow_trace=True, walk_p=0.6, means=(3, 10, 30, 100, 300)):
         if allow_trace and W.chance(0.5):
             trace = "all"
             sched["gap_mean"] = sched["gap_mean"] * 4
+            if W.chance(0.1):
+                sched["opcodes"] = True
+                sched["gap_mean"] = sched["gap_mean"] * 4
+    elif arm == 2:
+        sched = {"kind": "pct", "pct_d": 1 + W.draw(3), "pct_len": W.choice([300, 1500, 6000])}
+        if allow_trace and W.chance(0.6):
+            trace = "all"
+            sched["pct_len"] *= 8
     if W.chance(0.25):
         sched["delay"] = True
     return sched, trace
